@@ -41,5 +41,6 @@ Definition documented : facts := {|
   (* documented: every write goes into the validator's own copy (depth 0), or into a nested container that was
      re-bound to a copy first *)
   f_write_sites := [];
-  f_entry_copies := true
+  f_entry_copies := true;
+  f_lazy_publish_last := true
 |}.
